@@ -51,21 +51,40 @@ def summary_end_arg_expr():
     return _END_ARG_EXPR
 
 
-class _TC:
-    def __init__(self, n):
-        self._start_date = SIM_START
-        self._end_date = SIM_START + timedelta(days=n - 1)
-        # value of the counter after the day loop has finished
-        self.current_date = SIM_START + timedelta(days=n)
-
-
 class _Self:
-    def __init__(self, n):
-        self._tc = _TC(n)
+    def __init__(self, tc):
+        self._tc = tc
+
+
+_TC_CACHE = {}
+
+
+def real_time_counter(n):
+    """the REAL TimeCounter of a period of `n` days, stepped by the loop condition of
+    LdarSim.run_simulation (`while not tc.at_simulation_end(): ... tc.next_day()`); returns
+    (counter after the loop, number of loop iterations).  The number of iterations is the number of
+    days the adapter simulates, so a change of `at_simulation_end` / `next_day` shows up as a
+    model/implementation disagreement of the unit cases (the model simulates exactly `n` days and hands
+    `summaryEndArg n` to calc_mitigated)."""
+    if n not in _TC_CACHE:
+        from time_counter import TimeCounter
+
+        e = SIM_START + timedelta(days=n - 1)
+        tc = TimeCounter((SIM_START.year, SIM_START.month, SIM_START.day), (e.year, e.month, e.day))
+        k = 0
+        while not tc.at_simulation_end() and k < n + 400:
+            tc.next_day()
+            k += 1
+        _TC_CACHE[n] = (tc, k)
+    return _TC_CACHE[n]
 
 
 def summary_end_date(n):
-    return eval(summary_end_arg_expr(), {}, {"self": _Self(n)})
+    return eval(summary_end_arg_expr(), {}, {"self": _Self(real_time_counter(n)[0])})
+
+
+def simulated_days(n):
+    return real_time_counter(n)[1]
 
 
 def make_emission(start, nrd, delay, repairable, intermittent, adur, idur, rate=1.0, cost=100.0):
@@ -99,7 +118,7 @@ def run_case(case):
     em = make_emission(start, nrd, delay, repairable, intermittent, adur, idur)
     comp = make_component([em])
     per_day = []
-    for dn in range(n):
+    for dn in range(simulated_days(n)):
         cur = SIM_START + timedelta(days=dn)
         comp.activate_emissions(cur, 0)
         for ev in events:
@@ -158,3 +177,189 @@ def case_line(case):
 def impl_line(case):
     em, sd, per_day = run_case(case)
     return summary_line(em, sd) + " | " + ";".join(per_day)
+
+
+def trace_line(case):
+    """(summary line, per-day list) of the real classes on a case"""
+    em, sd, per_day = run_case(case)
+    return summary_line(em, sd), per_day
+
+
+# ------------------------------------------------------------------------------------------------
+# C04: the real ComponentLevelMethod.survey_site (tagging calls after a survey step) and the real
+# Source._get_rep_delay / Source._create_emission (the sampled repair delay)
+# ------------------------------------------------------------------------------------------------
+RATE_SCALE = 1024  # measured rates of the generated reports are multiples of 1/1024
+
+
+class _StubSite:
+    """records what ComponentLevelMethod.survey_site asks of / does to the site"""
+
+    def __init__(self, prev_date):
+        self._latest = prev_date
+        self.log = []
+
+    def get_id(self):
+        return "site_1"
+
+    def get_latest_tagging_survey_date(self):
+        self.log.append(("get",))
+        return self._latest
+
+    def set_latest_tagging_survey_date(self, d):
+        self.log.append(("set", d))
+        self._latest = d
+
+    def tag_emissions_at_component(self, equipment_group, component, tagging_info=None):
+        self.log.append(("tag", equipment_group, component, tagging_info))
+
+
+def run_survey_site(spec):
+    """drive the REAL ComponentLevelMethod.survey_site on a prepared report.
+
+    spec = {"complete": bool, "method": int (company index; the method is named "c<idx>"),
+            "trd": int, "crew": int, "prev": int, "cur": int (day indices),
+            "groups": [[eqg_name, [[component_name, rate_scaled_int], ...]], ...]}
+    `Method.survey_site` (the generic survey step, modelled separately under C07/C08) is replaced for
+    the duration of the call by a function that returns the prepared SiteSurveyReport."""
+    from programs.method import Method
+    from programs.component_level_method import ComponentLevelMethod
+    from scheduling.schedule_dataclasses import (
+        CrewDailyReport, EmissionDetectionReport, EquipmentGroupSurveyReport, SiteSurveyReport)
+
+    cur = SIM_START + timedelta(days=spec["cur"])
+    prev = SIM_START + timedelta(days=spec["prev"])
+    site = _StubSite(prev)
+    report = SiteSurveyReport(site_id="site_1", survey_complete=bool(spec["complete"]),
+                              survey_in_progress=not spec["complete"])
+    for eqg, dets in spec["groups"]:
+        g = EquipmentGroupSurveyReport(site="site_1", equipment_group=eqg, measured_rate=0.0, true_rate=0.0)
+        for comp, r in dets:
+            g.emissions_detected.append(EmissionDetectionReport(
+                site="site_1", equipment_group=eqg, component=comp, measured_rate=r / RATE_SCALE, true_rate=1.0))
+        report.equipment_groups_surveyed.append(g)
+    meth = ComponentLevelMethod.__new__(ComponentLevelMethod)
+    meth._name = "c%d" % spec["method"]
+    meth._reporting_delay = spec["trd"]
+    meth._emissions_tagged_daily = 0
+    crew = CrewDailyReport(crew_id=spec["crew"], day_time_remaining=100)
+    sentinel = (report, 17.5, False, True)
+    seen = {}
+
+    def fake_super(self, crew, survey_report, site_to_survey, weather, curr_date):
+        seen["args"] = (self, crew, survey_report, site_to_survey, curr_date)
+        return sentinel
+
+    orig = Method.survey_site
+    Method.survey_site = fake_super
+    try:
+        out = meth.survey_site(crew=crew, survey_report=report, site_to_survey=site, weather=None, curr_date=cur)
+    finally:
+        Method.survey_site = orig
+    calls = []
+    for ev in site.log:
+        if ev[0] == "tag":
+            ti = ev[3]
+            calls.append({"eqg": ev[1], "comp": ev[2], "company": ti.company, "trd": ti.report_delay,
+                          "day": d2i(ti.curr_date), "t_since": ti.t_since_LDAR, "crew": ti.crew,
+                          "rate_scaled": ti.measured_rate * RATE_SCALE})
+    return {
+        "calls": calls,
+        "sets": [d2i(e[1]) for e in site.log if e[0] == "set"],
+        "gets": sum(1 for e in site.log if e[0] == "get"),
+        "latest_after": d2i(site._latest),
+        "tagged_daily": meth._emissions_tagged_daily,
+        "returned_super_tuple": tuple(out) == sentinel and out[0] is report,
+        "super_called_with_same_objects": seen.get("args", (None,) * 5)[1:] == (crew, report, site, cur),
+    }
+
+
+def survey_comp_index(spec):
+    """(eqg, component) -> dense index in first-appearance order (the model works on indices)"""
+    idx = {}
+    for eqg, dets in spec["groups"]:
+        for comp, _ in dets:
+            idx.setdefault((eqg, comp), len(idx))
+    return idx
+
+
+def survey_model_line(spec):
+    idx = survey_comp_index(spec)
+    dets = ",".join("[%d,%d]" % (idx[(eqg, comp)], r) for eqg, ds in spec["groups"] for comp, r in ds)
+    return "tagcalls %d %d %d %d %d [%s]" % (int(spec["complete"]), spec["method"], spec["trd"], spec["prev"],
+                                             spec["cur"], dets)
+
+
+def survey_impl_line(spec, out):
+    """the implementation's behaviour in the reply format of the driver's `tagcalls` op"""
+    idx = survey_comp_index(spec)
+    evs = ",".join("[%d,%s,%d]" % (idx.get((c["eqg"], c["comp"]), -1), c["company"][1:] if c["company"].startswith("c") else "?",
+                                   c["trd"]) for c in out["calls"])
+    t_since = out["calls"][0]["t_since"] if out["calls"] else spec["cur"] - spec["prev"]
+    return "[%s] %d %d 1" % (evs, out["latest_after"], t_since)
+
+
+class _StubRates:
+    def get_a_rate(self):
+        return 1.0
+
+
+def run_get_rep_delay(kind, values, seed, column="dcol"):
+    """drive the REAL Source._get_rep_delay and Source._create_emission.
+
+    kind "list": `_emis_rep_delay` is the list `values`; "int": the int `values[0]`; "column": the column
+    name `column` of a repair-delay dataframe holding `values` (plus an unrelated column);
+    "missing-column": a column name the dataframe does not have (the code exits).
+    np.random.choice is wrapped for the duration of the call: the wrapper lets the real function draw,
+    and re-draws an index over range(len(a)) from the same generator state to record which position was
+    taken (the state after the real draw is restored, so the simulator-visible stream is unchanged).
+    returns dict(value, index, n, emission_delay, exited)"""
+    import numpy as np
+    import pandas as pd
+
+    if kind == "list":
+        cfg, df = list(values), pd.DataFrame()
+    elif kind == "int":
+        cfg, df = int(values[0]), pd.DataFrame()
+    elif kind == "column":
+        cfg, df = column, pd.DataFrame({"other": [99] * len(values), column: list(values)})
+    else:
+        cfg, df = column, pd.DataFrame({"other": list(values)})
+    src = Source._reconstruct("S", True, True, 1, 0, True, {}, "r", 0.01, 30, {}, cfg, 100.0, None,
+                              "repairable", {})
+    rec = []
+    orig_choice = np.random.choice
+
+    def choice(a, *args, **kw):
+        st = np.random.get_state()
+        val = orig_choice(a, *args, **kw)
+        after = np.random.get_state()
+        np.random.set_state(st)
+        idx = int(orig_choice(len(a)))
+        np.random.set_state(after)
+        rec.append((idx, len(a), val))
+        return val
+
+    import logging
+
+    np.random.seed(seed)
+    np.random.choice = choice
+    logging.disable(logging.CRITICAL)
+    out = {"value": None, "index": None, "n": None, "emission_delay": None, "exited": False}
+    try:
+        try:
+            v = src._get_rep_delay(df)
+            out["value"] = int(v)
+            if rec:
+                out["index"], out["n"] = rec[-1][0], rec[-1][1]
+                out["index_value"] = int(list(values)[rec[-1][0]])
+            # the delay handed to a freshly created emission (same generator state -> same draw)
+            np.random.seed(seed)
+            em = src._create_emission(0, SIM_START, SIM_START, {"r": _StubRates()}, df)
+            out["emission_delay"] = int(em._repair_delay)
+        except SystemExit:
+            out["exited"] = True
+    finally:
+        np.random.choice = orig_choice
+        logging.disable(logging.NOTSET)
+    return out
